@@ -371,13 +371,21 @@ func isXMLName(s string) bool {
 	return true
 }
 
-// dropEmptyText removes empty text nodes (a JSON "" value): they have no XML
-// serialisation and no counterpart in the data model.
+// dropEmptyText removes empty text nodes (a JSON "" value) and joins adjacent
+// text nodes (the HTML5 parser leaves "a","b" next to each other after foster
+// parenting): neither has an XML serialisation of its own, and the XPath data
+// model has neither.
 func dropEmptyText(n *model.Node) *model.Node {
 	m := *n
 	m.Children = nil
 	for _, c := range n.Children {
 		if c.Kind == model.KText && c.Value == "" {
+			continue
+		}
+		if k := len(m.Children); c.Kind == model.KText && k > 0 && m.Children[k-1].Kind == model.KText {
+			joined := *m.Children[k-1]
+			joined.Value += c.Value
+			m.Children[k-1] = &joined
 			continue
 		}
 		m.Children = append(m.Children, dropEmptyText(c))
